@@ -36,5 +36,5 @@ m["confirmed_by_me"]={"demo_with_change":w,"demo_without_change":wo,"existing_su
  "commands":"cp demo into the package as zz_seed_demo_test.go; go test -run TestSeedDemo (with change: FAIL, after git stash: ok); go test ./... -skip <fixture-dependent tests> with the change: all ok"}
 json.dump(m,open(dst,'w'),indent=1)
 PY
-cd /repo && git worktree remove --force $WT
+(cd /repo && git worktree remove --force $WT 2>/dev/null) || rm -rf $WT
 echo "CONFIRMED and stored in /verif/seeded/$NAME"
